@@ -438,7 +438,9 @@ var rolloutSets = []roSet{
 		return []*v1beta1.Rollout{mkRollout(k, roOpt{disabledSpec: true, disabledPhase: true})}
 	}},
 	{"deleting", func(k *kindSpec) []*v1beta1.Rollout { return []*v1beta1.Rollout{mkRollout(k, roOpt{deleting: true})} }},
-	{"empty-strategy", func(k *kindSpec) []*v1beta1.Rollout { return []*v1beta1.Rollout{mkRollout(k, roOpt{strategy: "empty"})} }},
+	{"empty-strategy", func(k *kindSpec) []*v1beta1.Rollout {
+		return []*v1beta1.Rollout{mkRollout(k, roOpt{strategy: "empty"})}
+	}},
 	{"disabled+traffic,matching", func(k *kindSpec) []*v1beta1.Rollout {
 		return []*v1beta1.Rollout{mkRollout(k, roOpt{name: "aaa-disabled", tr: true, disabledSpec: true, disabledPhase: true}), mkRollout(k, roOpt{})}
 	}},
@@ -469,7 +471,9 @@ var rolloutSets = []roSet{
 		}
 		return []*v1beta1.Rollout{mkRollout(k, roOpt{apiVersion: av})}
 	}},
-	{"being-disabled", func(k *kindSpec) []*v1beta1.Rollout { return []*v1beta1.Rollout{mkRollout(k, roOpt{disabledSpec: true})} }},
+	{"being-disabled", func(k *kindSpec) []*v1beta1.Rollout {
+		return []*v1beta1.Rollout{mkRollout(k, roOpt{disabledSpec: true})}
+	}},
 }
 
 const quickRolloutSets = 11
@@ -1198,7 +1202,15 @@ func firstRepoFrames(stack string) string {
 	lines := strings.Split(stack, "\n")
 	for i, l := range lines {
 		if strings.HasPrefix(l, "github.com/openkruise/rollouts/") && i+1 < len(lines) {
-			out = append(out, strings.TrimSpace(l)+" @ "+strings.TrimSpace(lines[i+1]))
+			// function name and file:line only - argument words and pc offsets are addresses that differ between runs
+			fn, loc := strings.TrimSpace(l), strings.TrimSpace(lines[i+1])
+			if j := strings.LastIndex(fn, "("); j > 0 {
+				fn = fn[:j]
+			}
+			if j := strings.Index(loc, " +0x"); j > 0 {
+				loc = loc[:j]
+			}
+			out = append(out, fn+" @ "+loc)
 			if len(out) == 3 {
 				break
 			}
@@ -1317,7 +1329,7 @@ func shapes(k *kindSpec, group string, th bool, f func(s Shape)) {
 		if th {
 			inprogs = append(inprogs, b2{false, true})
 			strategies = []int{0, 1, 2, 3, 4}
-			repls = append(repls, [2]int{-1, -1}, [2]int{3, 0})
+			repls = append(repls, [2]int{-1, -1})
 		}
 		for _, ip := range inprogs {
 			for orig := 0; orig < 2; orig++ {
@@ -1459,7 +1471,11 @@ func Run(r *lib.Report) {
 		"status {single revision, several revisions, absent} x (Deployment) paused (old,new), deployment-strategy annotation {none, partition, canary, garbage}, original-strategy annotation, " +
 		"ReplicaSets {one, none, two active, scaled-down, foreign owner} x Rollout set {none, matching, with traffic routing, blue-green, other name/kind/group/namespace, disabled, deleting, empty strategy, pairs} " +
 		"plus unselected label shapes, status-subresource updates and creations - is sent as a real JSON admission request through the handler chain of the shipped webhook configuration; " +
-		"the returned JSON patch is applied to the submitted bytes. non-trivial = the admitted object differs from the submitted one; distinct = distinct (kind, shape, store) tuples"
+		"the returned JSON patch is applied to the submitted bytes. The domain is the union of three sub-products per kind: 'enter' (no marker before the edit / marker on both sides), " +
+		"'mid-release' (Deployment carrying the in-progressing marker x strategy annotations x strategy edits) and 'unselected' (label shapes, subresource, CREATE, extra labels, marker removed). " +
+		"Quick tier: smaller alphabets, 11 of 19 Rollout sets, 5 of 6 ReplicaSet sets, native/foreign StatefulSet on a 5-set core (same unstructured code path as the Advanced StatefulSet, " +
+		"which gets all), and the second webhook of the chain (unified handler, a no-op for Deployment/CloneSet/DaemonSet) is only called for objects the first one patched; thorough: everything, full chain. " +
+		"non-trivial = the admitted object differs from the submitted one; distinct = distinct (kind, shape, store) tuples"
 	r.Assumptions = []string{
 		"selected by the webhook = the NEW object carries the label rollouts.kruise.io/workload-type (objectSelector of the shipped configuration); old and new objects carry the same labels",
 		"release change: new rollout-id non-empty and different from the old one; or new rollout-id empty and pod templates differ ignoring the pod-template-hash label. Removing a rollout-id without touching the template is not decided by the text (either outcome accepted)",
